@@ -529,6 +529,57 @@ def run(r):
     for x in [x for x in slines if x.get("k") == "state"][:1]:
         r.sample({"session_snippet": x["src"], "class": x["class"], "compiler_state_before": x["before"], "after": x["after"]})
 
+    # ---- C: the backend of compile-time evaluation (Gate.comptime_backend) against the compiler
+    os.makedirs(scratch + "-bk", exist_ok=True)
+    bkf = os.path.join(scratch + "-bk", "in.txt")
+    with open(bkf, "w") as f:
+        f.write("hello file\n")
+    rc2, o = coq_eval("c20_backend", "From Coq Require Import List. Import ListNotations.\nFrom UV Require Import Model.Node Model.Gate.\n"
+                      "Eval vm_compute in (map comptime_backend [Lazy; Line; Normal; Lsp]).\n", 300)
+    predicted = re.findall(r"\b(BSafe|BNative|BOwn)\b", o.split(":")[0] if rc2 == 0 else "")
+    observed = []
+    for mname in ("Lazy", "Line", "Normal", "Lsp"):
+        rc, out, err = run_bin("c20", ["one", mname, '&fras "%s"' % bkf], seed=r.seed, timeout=120)
+        got = [x for x in json_lines(out) if x.get("k") == "one"]
+        g = got[0] if got else {"root": "", "log": "", "folded": False}
+        if "hello file" in g["root"]:
+            observed.append("BNative")          # the real file was read behind the supplied backend
+        elif "file_read_all" in g["log"]:
+            observed.append("BOwn")             # the recording backend was asked
+        else:
+            observed.append("BSafe" if not g["folded"] else "?")
+    r.coverage["backend_tie"] = {"kind": "C", "modes": ["Lazy", "Line", "Normal", "Lsp"], "model": predicted, "implementation": observed}
+    if len(predicted) != 4 or rc2 != 0:
+        r.broken_obligation("tie-eval:backend", "Coq evaluation of comptime_backend failed", o[-800:])
+    elif "BNative" in observed:
+        r.violation("host-file-read-bypassing-supplied-backend/" + ("lsp" if observed[3] == "BNative" else "default"),
+                    "compile-time evaluation read the real file behind the supplied backend (modes %s)" % observed,
+                    {"program": '&fras "%s"' % bkf, "observed": observed, "cmd": "c20 one <mode> '&fras \"file\"'"}, theorem="C20_comptime_backend_own")
+    elif predicted != observed:
+        r.broken_obligation("tie:Gate.v~comptime-backend", "model and implementation disagree on the backend of compile-time evaluation: model %s, implementation %s" % (predicted, observed), "")
+
+    # ---- search: TWO compilers with different backends on one thread (the pre-evaluation cache)
+    rc, out, err3 = run_bin("c20", ["twocomp", 0, scratch + "-two"], seed=r.seed, timeout=600)
+    tl = json_lines(out)
+    two = [x for x in tl if x.get("k") == "two"]
+    if rc != 0 or not two:
+        r.broken_obligation("search-harness:twocomp", "c20 twocomp failed to run", (out + err3)[-1500:])
+    tv = [x for x in tl if x.get("k") == "violation"]
+    tseen = set()
+    for v in tv:
+        if v["key"] in tseen:
+            continue
+        tseen.add(v["key"])
+        r.violation(v["key"], "two compilers on one thread: " + v["calls"][:600],
+                    {"program": v["program"], "second_compiler_mode": v["mode"], "second_backend_calls": v["methods"], "detail": v["calls"], "cmd": "c20 twocomp"},
+                    theorem="C20_precache_crosses_backends_refuted")
+    r.coverage["two_compilers"] = {"kind": "search", "histories": len(two), "second_compiler_got_first_backends_value": sum(1 for x in two if x["differs"]),
+                                   "by_second_mode": {m: sum(1 for x in two if x["differs"] and x["second_mode"] == m) for m in ("Lsp", "Normal")}}
+    if two:
+        x = two[2] if len(two) > 2 else two[0]
+        r.sample({"two_compilers": x["snippet"], "first_backend": x["first"], "first_root": x["first_root"], "second_mode": x["second_mode"],
+                  "second_root_with_deny_backend": x["second_root"], "fresh_thread_reference": x["reference_root"]})
+
     # ---- regression corpus: the inputs of the repaired findings (fix commits 1cead72, d78a439, 06086d8),
     #      compiled in editor mode with the recorder attached: nothing may be folded, printed or opened
     os.makedirs(scratch + "-reg", exist_ok=True)
@@ -571,14 +622,16 @@ def run(r):
                                  "allow_listed_lines": [w for _, w in ALLOW_LINES], "outside_allow_list": outside, "findings": [f[0] for f in findings]}
     if outside:
         r.broken_obligation("static-scan", "host I/O API used outside the allow-listed modules: %s" % outside[:3], "\n".join(outside))
-    # the two leaks the scan points at, confirmed by running them under SafeSys
-    if any(f[0] == "static:readlines-stdin-bypasses-backend" for f in findings):
+    for f in findings:
+        r.violation(f[0], "host I/O outside the backend reappeared: %s:%d %s" % (f[1], f[2], f[3]), {"file": f[1], "line": f[2], "text": f[3]})
+    # the two leaks the scan once pointed at, replayed under SafeSys
+    if True:   # regression corpus (repaired by 8a2781a): always replayed
         rc, out, err = run_bin("c20", ["safe-run", "&rl□ 0"], stdin="secret-line\n", timeout=60)
         got = json_lines(out)
         if got and "secret-line" in json.dumps(got[0]):
             r.violation("safesys:readlines-reads-real-stdin", "under SafeSys `&rl f 0` reads the process's real standard input (std::io::stdin(), src/sys/mod.rs run_sys_op_mod) instead of failing",
                         {"program": "&rl□ 0", "stdin": "secret-line", "result": got[0], "cmd": "printf 'secret-line\\n' | c20 safe-run '&rl□ 0'"}, theorem="safe_backend_denies")
-    if any(f[0] == "static:workingdir-constant-reads-host-cwd" for f in findings):
+    if True:   # regression corpus (repaired by 7f8cdfe): always replayed
         rc, out, err = run_bin("c20", ["safe-run", "WorkingDir"], stdin="", timeout=60)
         got = json_lines(out)
         if got and got[0].get("stack") and os.getcwd() in got[0]["stack"][0]:
